@@ -11,5 +11,6 @@ INVARIANT ReduceRule
 INVARIANT ReduceOnlyOnFire
 INVARIANT OptimizerHasRate
 INVARIANT RestartTransparent
+INVARIANT DeclIsChain
 
 CHECK_DEADLOCK FALSE
